@@ -166,7 +166,26 @@ FN_ORACLES = {
     "quad": dict(coq="o_quad", ty="(num A -> num A) -> num A -> num A -> num A * num A", params=["func", "a", "b"],
                  ptypes=[("fun", [_f.NUM], _f.NUM), _f.NUM, _f.NUM], ret=_f.tup(_f.NUM, _f.NUM)),
 }
+_DB = "frouros/detectors/data_drift/batch/distance_based/"
+_VN = _f.vec(_f.NUM)
+FN_UNITS += [
+    dict(name="dist_calculate_bins_values", file=_DB + "base.py", cls="BaseDistanceBasedBins", fn="_calculate_bins_values", params=dict(X_ref=_VN, X=_VN, num_bins=_f.INT)),
+    dict(name="dist_psi", file=_DB + "psi.py", cls="PSI", fn="_psi", params=dict(X=_VN, Y=_VN, num_bins=_f.INT)),
+    dict(name="dist_hellinger", file=_DB + "hellinger_distance.py", cls="HellingerDistance", fn="_hellinger", params=dict(X=_VN, Y=_VN, num_bins=_f.INT, sqrt_div=_f.NUM)),
+    dict(name="dist_bhattacharyya", file=_DB + "bhattacharyya_distance.py", cls="BhattacharyyaDistance", fn="_bhattacharyya", params=dict(X=_VN, Y=_VN, num_bins=_f.INT)),
+    dict(name="dist_hi_normalized_complement", file=_DB + "hi_normalized_complement.py", cls="HINormalizedComplement", fn="_hi_normalized_complement", params=dict(X=_VN, Y=_VN, num_bins=_f.INT)),
+]
+_HR = _f.tup(_f.vec(_f.INT), _VN)  # (counts, bin edges)
+FN_ORACLES["np.histogram"] = [
+    # np.histogram(a, bins=<number of bins>): the range is the sample's own
+    dict(coq="o_histogram_n", ty="list (num A) -> Z -> list Z * list (num A)", params=["a", "bins"], ptypes=[_VN, _f.INT], ret=_HR),
+    # np.histogram(a, bins=<edges>)
+    dict(coq="o_histogram_edges", ty="list (num A) -> list (num A) -> list Z * list (num A)", params=["a", "bins"], ptypes=[_VN, _VN], ret=_HR),
+    # np.histogram(a, bins=<number of bins>, range=(lo, hi))
+    dict(coq="o_histogram_range", ty="list (num A) -> Z -> num A * num A -> list Z * list (num A)", params=["a", "bins", "range"], ptypes=[_VN, _f.INT, _f.tup(_f.NUM, _f.NUM)], ret=_HR),
+]
 FN_CONSTS = [(_PT, ["MAX_NUM_PERM"])]
+EQ.update({"C10": ["EqDist.v"]})
 # property -> Eq files that are compiled against GFn.v
 EQ.update({"C13": ["EqPerm.v"]})
 
